@@ -31,17 +31,16 @@ def schema_representation(model):
         cdef, tnode = model.class_attr(kind, "_cparams")
         if tnode is None:
             continue
-        params = None
-        if isinstance(tnode, ast.Dict):
-            for k, v in zip(tnode.keys, tnode.values):
-                if isinstance(k, ast.Constant) and k.value == "params":
-                    params = v
-        if params is None or not isinstance(params, ast.Dict):
-            raise AnalysisError("%s._cparams: the parameter table is not a literal {'name': .., 'params': {..}}" % kind)
-        for k, v in zip(params.keys, params.values):
-            if not (isinstance(v, ast.Dict) and all(isinstance(kk, ast.Constant) for kk in v.keys)):
-                raise AnalysisError("%s._cparams: the entry of %s is %s, not a {'typ', 'opt', 'def'} table: schema representation not readable" % (
-                    kind, ast.unparse(k), ast.unparse(v)[:50]))
+        try:
+            tab = model.fold("components", tnode)
+        except AnalysisError:
+            continue        # the table rule says what it cannot fold
+        params = tab.get("params") if isinstance(tab, dict) else None
+        if not isinstance(params, dict):
+            raise AnalysisError("%s._cparams: the parameter table is not {'name': .., 'params': {..}}" % kind)
+        for k, v in params.items():
+            if not isinstance(v, dict):
+                raise AnalysisError("%s._cparams: the entry of %r is %r, not a {'typ', 'opt', 'def'} table: schema representation not readable" % (kind, k, v))
 
 
 def ctor_sig(model, kind):
